@@ -96,17 +96,20 @@ def narrow_str_registry(obj, base, names):
     return obj
 
 
-def infer(models, options, str_registry_obj=None):
-    """samples -> merged, named ModelRegistry (the part of the pipeline before layout)."""
+def infer(models, options, str_registry_obj=None, gen_obj=None, cmps_obj=None):
+    """samples -> merged, named ModelRegistry (the part of the pipeline before layout).
+    gen_obj / cmps_obj: a MetadataGenerator / a list of comparator objects that the caller re-uses for several
+    generations (built by an earlier call with the same options)."""
     st = options.get("str_types", ["int", "float", "bool"])
-    gen = MetadataGenerator(
+    gen = gen_obj if gen_obj is not None else MetadataGenerator(
         # "default": the process-global default registry (what a library user gets without passing one)
         str_types_registry=str_registry_obj if str_registry_obj is not None else
         None if st == "default" else build_str_registry(st),
         dict_keys_regex=[rf"^{r}$" for r in options.get("dict_keys_regex", [])],
         dict_keys_fields=list(options.get("dict_keys_fields", [])),
     )
-    reg = ModelRegistry(*make_cmps(options.get("merge", ["percent", "number"])))  # (merge None -> ModelRegistry())
+    reg = ModelRegistry(*(cmps_obj if cmps_obj is not None else
+                          make_cmps(options.get("merge", ["percent", "number"]))))  # (merge None -> ModelRegistry())
     for name, samples in models:
         meta = gen.generate(*samples)
         reg.process_meta_data(meta, name)
